@@ -144,13 +144,51 @@ func (vc *VC) mapsComp() string {
 	return "$maps"
 }
 
+// ---- maps ----
+// A map value is a handle m; $map!K!V[m] is its content, an array from keys to an option of values.
+
+func (vc *VC) optSort(v types.Type) string {
+	vs := vc.sortOf(v)
+	name := "Opt_" + typeKey(v)
+	if !vc.declared[name] {
+		vc.declared[name] = true
+		vc.decls = append(vc.decls, fmt.Sprintf("(declare-datatypes ((%s 0)) (((none_%s) (some_%s (val_%s %s)))))", name, typeKey(v), typeKey(v), typeKey(v), vs))
+	}
+	return name
+}
+
+func (vc *VC) mapComp(mt *types.Map) string {
+	name := "$map!" + typeKey(mt.Key()) + "!" + typeKey(mt.Elem())
+	vc.comp(name, fmt.Sprintf("(Array Int (Array %s %s))", vc.sortOf(mt.Key()), vc.optSort(mt.Elem())))
+	return name
+}
+
+func (fr *Frame) mapOf(v ssa.Value, st *State) (string, *types.Map) {
+	mt := v.Type().Underlying().(*types.Map)
+	comp := fr.vc.mapComp(mt)
+	return fmt.Sprintf("(select %s %s)", fr.vc.get(st, comp), fr.val(v).S), mt
+}
+
 func (fr *Frame) execMakeMap(ins *ssa.MakeMap, st *State) {
-	fr.vc.unsupportedf("make(map) at %s", fr.vc.posOf(ins.Pos()))
-	fr.bindFresh(ins)
+	vc := fr.vc
+	mt := ins.Type().Underlying().(*types.Map)
+	comp := vc.mapComp(mt)
+	r := vc.newRef(st, fr.curReach)
+	empty := fmt.Sprintf("((as const (Array %s %s)) none_%s)", vc.sortOf(mt.Key()), vc.optSort(mt.Elem()), typeKey(mt.Elem()))
+	vc.set(st, comp, fmt.Sprintf("(store %s %s %s)", vc.get(st, comp), r, empty))
+	fr.vals[ins] = Term{r, "Int", ins.Type()}
 }
 func (fr *Frame) execMakeChan(ins *ssa.MakeChan, st *State) {
-	fr.vc.unsupportedf("make(chan) at %s", fr.vc.posOf(ins.Pos()))
-	fr.bindFresh(ins)
+	vc := fr.vc
+	r := vc.newRef(st, fr.curReach)
+	// a fresh channel: nothing received, nothing sent yet
+	comp := vc.chposComp()
+	vc.set(st, comp, fmt.Sprintf("(store %s %s 0)", vc.get(st, comp), r))
+	sc := vc.chsentComp()
+	vc.set(st, sc, fmt.Sprintf("(store %s %s 0)", vc.get(st, sc), r))
+	vc.comp("$chclosed", "(Array Int Bool)")
+	vc.set(st, "$chclosed", fmt.Sprintf("(store %s %s false)", vc.get(st, "$chclosed"), r))
+	fr.vals[ins] = Term{r, "Int", ins.Type()}
 }
 func (fr *Frame) execLookup(ins *ssa.Lookup, st *State) {
 	vc := fr.vc
@@ -161,27 +199,118 @@ func (fr *Frame) execLookup(ins *ssa.Lookup, st *State) {
 		fr.bind(ins, fmt.Sprintf("(str_at %s %s)", x.S, idx))
 		return
 	}
-	vc.unsupportedf("map lookup at %s", vc.posOf(ins.Pos()))
+	m, mt := fr.mapOf(ins.X, st)
+	fr.checkMapGuard(ins.X, false, ins.Pos(), st)
+	k := fr.val(ins.Index)
+	tk := typeKey(mt.Elem())
+	ent := vc.fresh("mapent")
+	vc.define(ent, vc.optSort(mt.Elem()), fmt.Sprintf("(select %s %s)", m, k.S))
+	ok := fmt.Sprintf("((_ is some_%s) %s)", tk, ent)
+	v := fmt.Sprintf("(ite %s (val_%s %s) %s)", ok, tk, ent, vc.zero(mt.Elem()).S)
+	vn := vc.fresh("mapv")
+	vc.define(vn, vc.sortOf(mt.Elem()), v)
+	vc.assumeIf(fr.curReach, vc.wf(mt.Elem(), vn))
 	if ins.CommaOk {
-		mt := ins.X.Type().Underlying().(*types.Map)
-		v := vc.freshVal("mapv", mt.Elem(), fr.curReach)
-		ok := vc.fresh("mapok")
-		vc.declare(ok, "Bool")
-		fr.tupleParts[ins] = []Term{v, {ok, "Bool", types.Typ[types.Bool]}}
+		okn := vc.fresh("mapok")
+		vc.define(okn, "Bool", ok)
+		fr.tupleParts[ins] = []Term{{vn, vc.sortOf(mt.Elem()), mt.Elem()}, {okn, "Bool", types.Typ[types.Bool]}}
 		fr.vals[ins] = Term{"tuple", "tuple", ins.Type()}
 		return
 	}
-	fr.bindFresh(ins)
+	fr.vals[ins] = Term{vn, vc.sortOf(mt.Elem()), ins.Type()}
 }
 func (fr *Frame) execMapUpdate(ins *ssa.MapUpdate, st *State) {
-	fr.vc.unsupportedf("map update at %s", fr.vc.posOf(ins.Pos()))
+	vc := fr.vc
+	m, mt := fr.mapOf(ins.Map, st)
+	fr.nilCheck(fr.val(ins.Map).S, "assignment to entry in nil map", ins.Pos())
+	fr.checkMapGuard(ins.Map, true, ins.Pos(), st)
+	comp := vc.mapComp(mt)
+	k := fr.val(ins.Key)
+	v := fr.val(ins.Value)
+	vc.set(st, comp, fmt.Sprintf("(store %s %s (store %s %s (some_%s %s)))", vc.get(st, comp), fr.val(ins.Map).S, m, k.S, typeKey(mt.Elem()), v.S))
 }
 func (fr *Frame) execMapDelete(ins *ssa.Call, st *State) {
-	fr.vc.unsupportedf("map delete at %s", fr.vc.posOf(ins.Pos()))
+	vc := fr.vc
+	args := ins.Call.Args
+	m, mt := fr.mapOf(args[0], st)
+	fr.checkMapGuard(args[0], true, ins.Pos(), st)
+	comp := vc.mapComp(mt)
+	k := fr.val(args[1])
+	vc.set(st, comp, fmt.Sprintf("(store %s %s (store %s %s none_%s))", vc.get(st, comp), fr.val(args[0]).S, m, k.S, typeKey(mt.Elem())))
+	fr.vals[ins] = Term{"unit", "Unit", ins.Type()}
 }
+
+// checkMapGuard: a map loaded from a struct field declared `guarded_by` needs the lock: the write
+// lock for updates and deletes, the read or the write lock for lookups (C14, C17).
+func (fr *Frame) checkMapGuard(m ssa.Value, write bool, pos token.Pos, st *State) {
+	vc := fr.vc
+	u, ok := m.(*ssa.UnOp)
+	if !ok {
+		return
+	}
+	fa, ok := u.X.(*ssa.FieldAddr)
+	if !ok {
+		return
+	}
+	pt, ok := fa.X.Type().Underlying().(*types.Pointer)
+	if !ok {
+		return
+	}
+	n, ok := pt.Elem().(*types.Named)
+	if !ok || n.Obj().Pkg() == nil {
+		return
+	}
+	key := shortPkg(n.Obj().Pkg().Path()) + "." + n.Obj().Name() + "." + fieldName(pt.Elem(), fa.Field)
+	gs, ok := vc.db.Globals[key]
+	if !ok || !strings.HasPrefix(gs.Kind, "guarded_by:") {
+		return
+	}
+	lockField := strings.TrimPrefix(gs.Kind, "guarded_by:")
+	stt := pt.Elem().Underlying().(*types.Struct)
+	for i := 0; i < stt.NumFields(); i++ {
+		if stt.Field(i).Name() == lockField {
+			base := fr.lvalOf(fa.X)
+			lv := &LVal{Comp: base.Comp, Ref: base.Ref, Path: append(append([]pathElem{}, base.Path...), pathElem{field: i, structT: pt.Elem()}), T: stt.Field(i).Type()}
+			lock := vc.loadL(lv, st).S
+			vc.comp("wheld", "(Array Int Bool)")
+			vc.comp("rheld", "(Array Int Bool)")
+			w := fmt.Sprintf("(select %s %s)", vc.get(st, "wheld"), lock)
+			r := fmt.Sprintf("(select %s %s)", vc.get(st, "rheld"), lock)
+			goal := w
+			what := "write access to " + key + " holds the write lock " + lockField
+			if !write {
+				goal = fmt.Sprintf("(or %s %s)", w, r)
+				what = "read access to " + key + " holds " + lockField
+			}
+			vc.oblige("guard", fr.autoTags(), fr.curReach, goal, what, pos, nil)
+			return
+		}
+	}
+	vc.unsupportedf("guarded_by: no field %s in %s", lockField, key)
+}
+
+func (vc *VC) chsentComp() string {
+	vc.comp("$chsent", "(Array Int Int)")
+	return "$chsent"
+}
+
+// Send: the value becomes element number $chsent[c] of the channel; close fixes the length.
 func (fr *Frame) execSend(ins *ssa.Send, st *State) {
-	fr.vc.unsupportedf("channel send at %s", fr.vc.posOf(ins.Pos()))
+	vc := fr.vc
+	c := fr.val(ins.Chan)
+	ct := ins.Chan.Type().Underlying().(*types.Chan)
+	v := fr.val(ins.X)
+	vc.oblige("chan", fr.autoTags(), fr.curReach, fmt.Sprintf("(not (= %s 0))", c.S), "send on a nil channel blocks forever", ins.Pos(), nil)
+	vc.comp("$chclosed", "(Array Int Bool)")
+	vc.oblige("chan", fr.autoTags(), fr.curReach, fmt.Sprintf("(not (select %s %s))", vc.get(st, "$chclosed"), c.S), "send on a closed channel panics", ins.Pos(), nil)
+	fr.atSendAsserts(ins, v, st)
+	sc := vc.chsentComp()
+	cnt := fmt.Sprintf("(select %s %s)", vc.get(st, sc), c.S)
+	fn := vc.chelemFn(ct.Elem())
+	vc.assumeIf(fr.curReach, fmt.Sprintf("(= (%s %s %s) %s)", fn, c.S, cnt, v.S))
+	vc.set(st, sc, fmt.Sprintf("(store %s %s (+ %s 1))", vc.get(st, sc), c.S, cnt))
 }
+
 // ---- channels as ghost streams ----
 // A channel handle c carries chlen(c) elements in total (then it is closed); $chpos[c] is the number
 // already received; element i is chelem_<sort>(c, i). Blocking and scheduling are not modelled:
@@ -288,7 +417,15 @@ func (fr *Frame) execSelect(ins *ssa.Select, st *State) {
 	fr.vals[ins] = Term{"tuple", "tuple", ins.Type()}
 }
 func (fr *Frame) execClose(ins *ssa.Call, st *State) {
-	fr.vc.unsupportedf("close at %s", fr.vc.posOf(ins.Pos()))
+	vc := fr.vc
+	c := fr.val(ins.Call.Args[0])
+	ct := ins.Call.Args[0].Type().Underlying().(*types.Chan)
+	vc.chelemFn(ct.Elem())
+	vc.comp("$chclosed", "(Array Int Bool)")
+	vc.oblige("chan", fr.autoTags(), fr.curReach, fmt.Sprintf("(and (not (= %s 0)) (not (select %s %s)))", c.S, vc.get(st, "$chclosed"), c.S), "close of a nil or already closed channel panics", ins.Pos(), nil)
+	vc.set(st, "$chclosed", fmt.Sprintf("(store %s %s true)", vc.get(st, "$chclosed"), c.S))
+	vc.assumeIf(fr.curReach, fmt.Sprintf("(= (chlen %s) (select %s %s))", c.S, vc.get(st, vc.chsentComp()), c.S))
+	fr.vals[ins] = Term{"unit", "Unit", ins.Type()}
 }
 func (fr *Frame) execRange(ins *ssa.Range, st *State) {
 	fr.vc.unsupportedf("range over map/string at %s", fr.vc.posOf(ins.Pos()))
